@@ -716,6 +716,17 @@ func (sc *scen) spentByLastBlock(refs []ref) []ref {
 	return res
 }
 
+// inflightReplay: for the fixed scenario the payload is kept free of transaction ids (signatures are randomised, so
+// ids differ from run to run) and is therefore identical in every run; random scenarios carry everything.
+func (sc *scen) inflightReplay(ctx map[string]any, regression string, q infoQuery, ans infoAnswer, already []ref) map[string]any {
+	if regression == "" {
+		return sc.replay(ctx)
+	}
+	return map[string]any{"regression": regression, "seed": sc.seed, "scenario": "regression/" + regression, "mode": sc.mode,
+		"settings": sc.s, "query": q, "offered_outputs": len(ans.Inputs), "of_which_spent_by_last_block": len(already),
+		"rest": ans.Rest, "post_status": ctx["post_status"], "post_body": ctx["post_body"], "last_block": sc.last()}
+}
+
 // post builds the wallet's transaction from an info answer, posts it and checks the pool admitted it.
 func (sc *scen) post(o *node.Wallet, q infoQuery, amount uint64, ans infoAnswer, yieldRest bool, regression string) *sentTx {
 	viaGin := q.ViaGin
@@ -753,7 +764,7 @@ func (sc *scen) post(o *node.Wallet, q infoQuery, amount uint64, ans infoAnswer,
 			sc.st.inflight(failure{Prop: "C18", Kind: "prop", Signature: "C18/" + inflightSignature,
 				Detail: fmt.Sprintf("GET /transaction/info offered %d output(s) that a transaction of the validator's last (unconfirmed) block has already spent (Utxos(address) still lists them); "+
 					"the wallet's transaction built from the answer got POST %d %q but the validator's pool refused it", len(already), res.Status, string(res.Body)),
-				Replay: sc.replay(ctx)})
+				Replay: sc.inflightReplay(ctx, regression, q, ans, already)})
 			return nil
 		}
 		sc.fail("C18", "prop", "clause/admitted", fmt.Sprintf("the validator's pool did not admit the transaction built from the answer (category %s, consolidation %v, %d inputs, rest %d, yielding rest %v)",
